@@ -121,14 +121,19 @@ def mol_set(tier):
             mols.append((spec['tag'], M.to_chython(spec)))
     extra = ['C1CC1', 'C1CCC1', 'C1CCCC1', 'C1CCCCC1', 'C1CCCCCC1', 'C1CC2CCC1C2', 'C1CCC2CCCCC2C1', 'c1ccccc1', 'c1ccncc1', 'c1cc[nH]c1', 'c1ccc2ccccc2c1', 'c1ccccc1-c1ccccc1',
              'C1CC1C1CC1', 'C1CCCCC1C1CCCCC1', '[NH4+]', 'C[N+](C)(C)C', 'CC(=O)[O-]', '[Na+].[Cl-]', 'C#N', 'C=C=C', 'CC#CC', 'N#CC=O', '[13CH4]', 'C[2H]', '[Fe]', 'Cl[Pt](Cl)(N)N',
-             'O=S(=O)(O)O', 'OP(O)(O)=O', 'FC(F)(F)C(Cl)(Cl)Br', 'C1=CC=CC=C1', 'O=C1C=CC(=O)C=C1', 'C1CC11CC1', 'CN1C=NC2=C1C(=O)N(C)C(=O)N2C', 'C[Si](C)(C)C', 'B(O)(O)C', 'C~[Fe]', 'C[Sn](C)(C)C', 'C[Se]C', 'Cl[Co]Cl', 'Br[Cu]',
+             'O=S(=O)(O)O', 'OP(O)(O)=O', 'FC(F)(F)C(Cl)(Cl)Br', 'C1=CC=CC=C1', 'O=C1C=CC(=O)C=C1', 'C1CC11CC1', 'CN1C=NC2=C1C(=O)N(C)C(=O)N2C', 'C[Si](C)(C)C', 'B(O)(O)C', 'C~[Fe]', 'C[Sn](C)(C)C', 'C[Se]C', 'Cl[Co]Cl', 'Br[Cu]', 'c1c[nH]ccc1=O', '[nH]1ccccc1=O', 'O=c1cc[nH]cc1', 'c12ccccc1occc2=O', 'S=c1cccc[nH]1', 'O=c1ccoc2ccccc12',
              'C1CC1~[Cu]', '[CH3]', 'C[O]', 'CC(C)(C)C', 'OC(O)(O)O', 'C1CCC2(CC1)CCCC2']
     extra += inputs.organometallics()[::5]
     extra += M.corpus(stride=40 if tier == 'quick' else 8)
     for s in extra:
         try:
             m = smiles(s)
-            if any(a.implicit_hydrogens is None for _, a in m.atoms()):
+            if any(b.order == 4 for *_, b in m.bonds()):
+                # aromatic text is also kept exactly as parsed (labels set by the reader), next to the re-aromatised form
+                mols.append((s + ' (as parsed)', m.copy()))
+                m.kekule()
+                m.thiele()
+            elif any(a.implicit_hydrogens is None for _, a in m.atoms()):
                 m.kekule()
                 m.thiele()
             if s in ('[CH3]', 'C[O]'):
@@ -581,10 +586,82 @@ def run_stereo_templates(shard):
     return acc
 
 
+def run_api(shard):
+    """query atoms built through the API (constructor keywords and attribute assignment; int, tuple and list forms incl. 0) against every atom environment"""
+    from chython.periodictable import Element, QueryElement, AnyElement, AnyMetal, ListElement
+    k, nsh, tier = shard
+    acc = Acc()
+    s2z = {c.__name__: c.atomic_number.fget(None) for c in Element.__subclasses__()}
+    envs = []
+    for tag, m in mol_set('quick')[::2]:
+        try:
+            a, b = environments(m, s2z)
+        except Exception:
+            continue
+        envs.append((tag, m, a))
+    bases = [('C', lambda **kw: QueryElement.from_symbol('C')(**kw), {6}), ('#7', lambda **kw: QueryElement.from_atomic_number(7)(**kw), {7}), ('A', lambda **kw: AnyElement(**kw), None),
+             ('N,O', lambda **kw: ListElement(['N', 'O'], **kw), {7, 8}), ('Cl,Br', lambda **kw: ListElement(['Cl', 'Br'], **kw), {17, 35}), ('M', lambda **kw: AnyMetal(**kw), 'metal')]
+    fields = [('neighbors', 'D', [0, 1, 2, 3, 4]), ('implicit_hydrogens', 'h', [0, 1, 2, 3]), ('heteroatoms', 'x', [0, 1, 2]), ('hybridization', 'z', [1, 2, 3, 4]), ('ring_sizes', 'r', [0, 3, 5, 6])]
+    cases = []
+    for bname, ctor, zs in bases:
+        for fname, kind, dom in fields:
+            if bname == 'M' and fname not in ('neighbors', 'hybridization'):
+                continue
+            for v in dom:
+                forms = [('int', v), ('tuple', (v,)), ('list', [v])]
+                if kind == 'r' and v == 0:
+                    forms = [('int', 0)]   # 0 = "not in a ring" exists only as a bare integer
+                for form, val in forms:
+                    for via in ('ctor', 'setter'):
+                        cases.append((bname, ctor, zs, fname, kind, (v,), form, val, via))
+            for v, w in itertools.combinations([d for d in dom if not (kind == 'r' and d == 0)], 2):
+                for form, val in (('tuple', (v, w)), ('list', [w, v])):
+                    cases.append((bname, ctor, zs, fname, kind, (v, w), form, val, 'ctor'))
+    for ci, (bname, ctor, zs, fname, kind, vals, form, val, via) in enumerate(cases):
+        if ci % nsh != k:
+            continue
+        desc = '%s %s=%r (%s, %s)' % (bname, fname, val, form, via)
+        try:
+            if via == 'ctor':
+                q = ctor(**{fname: val})
+            else:
+                q = ctor()
+                setattr(q, fname, val)
+        except Exception as e:
+            acc.fail('documented query-atom value rejected through the API: %s :: %s %s' % (type(e).__name__, fname, form), case=desc)
+            continue
+        acc.states += 1
+        prim = ('R', None) if (kind == 'r' and vals == (0,)) else (kind, set(vals))
+        for tag, m, aenv in envs:
+            exp = set()
+            skip = False
+            for n, env in aenv.items():
+                r = atom_ok(zs, [prim], 0 if bname != 'M' else None, env, None)
+                if r is None:
+                    skip = True
+                    break
+                if r:
+                    exp.add(n)
+            if skip:
+                acc.ood['ring sizes ambiguous (minimum cycle basis not unique)'] += 1
+                continue
+            acc.transitions += 1
+            got = {n for n, a in m.atoms() if q == a}
+            if got != exp:
+                d = sorted(got ^ exp)[0]
+                acc.fail('API-built query atom == molecule atom differs from the attribute oracle :: %s as %s via %s' % (fname, form, via), case=desc, mol=tag, atom=d, chython=d in got)
+                break
+            acc.outcomes[len(exp) > 0] += 1
+    acc.sample({'cases': len(cases), 'example': [c[0] + ' ' + c[3] + '=' + repr(c[7]) for c in cases[:5]]})
+    return acc
+
+
 def plan(tier, seed):
     return [Stage('atom primitives and pairs', run_atoms, [(k, 64, tier) for k in range(64)], '15 element specs x (27 primitives + all pairs) (+charges, isotopes) x every atom of the molecule scope'),
             Stage('bond primitives', run_bonds, [(k, 21, tier) for k in range(21)], '%d bond primitives (orders, lists, negations, ring/non-ring) x every bond of the molecule scope' % len(BONDS)),
             Stage('unsupported / malformed SMARTS', run_syntax, [0], 'unsupported constructs and all token strings of length <=3: ValueError family or a query'),
+            Stage('query atoms built through the API', run_api, [(k, 16, tier) for k in range(16)],
+                  '6 kinds of query atom x 5 attributes x every value (incl. 0) as int / tuple / list, by constructor keyword and by assignment, and value pairs x every atom of the molecule scope'),
             Stage('stereo marks: templates', run_stereo_templates, [(p, tier) for p in ('tet4', 'tet3h', 'decor', 'allene')],
                   'tetrahedral centre texts: all 24/6 neighbour orders x both marks x middle/first/fragment forms; cis/trans texts x 6 bond primitives; allene texts; x labelled/unlabelled targets'),
             Stage('stereo marks: spellings', run_stereo_generic, [(b, tier) for b in (STEREO_BASES_QUICK if tier == 'quick' else STEREO_BASES)],
@@ -601,6 +678,9 @@ def replay(rec):
         except Exception:
             return [{'key': key}]
         return [{'key': key}] if exp != got else []
+    if 'API' in key:
+        accs = [run_api((k, 16, 'quick')) for k in range(16)]
+        return [f for a in accs for f in a.fails if f['key'] == key]
     if rec.get('kind') in ('tet4', 'tet3h', 'decor', 'allene'):
         a = run_stereo_templates((rec['kind'], 'quick'))
         return [f for f in a.fails if f['key'] == key]
